@@ -170,17 +170,30 @@ def make_step(kind, nops):
 # classproperty over a three-class hierarchy
 
 
-def make_cp_step(nops):
+def _cp_getter(cls):
+    return cls.base * 2 + cls.off
+
+
+def _make_cp(cache, per_sub, overridable):
+    cp = classproperty(_cp_getter, cache=cache, cache_per_subclass=per_sub, overridable=overridable)
+    A = type("A", (), {"cp": cp, "base": 0, "off": 0})
+    B = type("B", (A,), {"off": 1})
+    C = type("C", (B,), {"off": 2})
+    return A, B, C, cp
+
+
+CPS = {(c, p, o): _make_cp(c, p, o) for c in (False, True) for p in (False, True) for o in (False, True)}
+
+
+def make_cp_step(nops, fixed=None):
     def h(cache: bool, per_sub: bool, overridable: bool, base0: int, op1: int, w1: int, v1: int, op2: int, w2: int, v2: int, op3: int, w3: int, v3: int) -> str:
-        cache, per_sub, overridable = bool(cache), bool(per_sub), bool(overridable)
+        cache, per_sub, overridable = fixed if fixed is not None else (bool(cache), bool(per_sub), bool(overridable))
 
-        def getter(cls):
-            return cls.base * 2 + cls.off
-
-        cp = classproperty(getter, cache=cache, cache_per_subclass=per_sub, overridable=overridable)
-        A = type("A", (), {"cp": cp, "base": base0, "off": 0})
-        B = type("B", (A,), {"off": 1})
-        C = type("C", (B,), {"off": 2})
+        # descriptor + hierarchy are built at import time (CrossHair mis-models calling a class with a custom __new__
+        # such as classproperty(...) under tracing: the decorator closure is returned); state is reset per path.
+        A, B, C, cp = CPS[(cache, per_sub, overridable)]
+        cp.__dict__.pop("_cache", None)
+        A.base = base0
         classes = [A, B, C]
         store = {}
         mbase = [base0]
@@ -240,5 +253,6 @@ def obligations(tier):
     warm_s = [(o, c, s, d, wp, u, a, 5, b, 7, 0, 1) for o in (False, True) for c in (False, True) for s in (False,) for d in (False, True) for wp in (False, True) for a in range(4) for b in (0, 2) for u in (3, -2)]
     obs.append(Ob(f"C12.spec.h{nops}", make_step("spec", nops), warm_s, f"spec class with managed annotation p:int, with/without preparer (symbolic); getter returns a str for negative underlying state (cast by the preparer or refused by the type check); same flags / history space as the plain shard", expect={"ok"}, timeout=T * 2))
     warm_c = [(c, p, o, 2, a, 0, 5, b, 1, 6, 3, 2, 7) for c in (False, True) for p in (False, True) for o in (False, True) for a in range(5) for b in range(5)]
-    obs.append(Ob(f"C12.classproperty.h{nops + 1}", make_cp_step(nops + 1), warm_c, f"classproperty(cache, cache_per_subclass, overridable symbolic) on A>B>C; history of {nops + 1} operations from {{read via class, read via instance, assign, delete, change class state}} on a symbolic class of the hierarchy", expect={"ok"}, timeout=T))
+    for fx in [(c, p, o) for c in (False, True) for p in (False, True) for o in (False, True)]:
+        obs.append(Ob(f"C12.classproperty.c{int(fx[0])}p{int(fx[1])}o{int(fx[2])}.h{nops}", make_cp_step(nops, fx), warm_c, f"classproperty(cache={fx[0]}, cache_per_subclass={fx[1]}, overridable={fx[2]}) on A>B>C; history of {nops} operations from {{read via class, read via instance, assign, delete, change class state}} on a symbolic class of the hierarchy", expect={"ok"}, timeout=T))
     return obs
